@@ -15,6 +15,9 @@ PROP = dict(
         "MM.C04.C04_payload_sealed",
         "MM.C04.C04_key_not_on_wire",
         "MM.C04.C04_transit_reads_nothing",
+        "MM.C04.C04_coverage_complete",
+        "MM.C04.sealed_any_phase",
+        "MM.C04.C04_payload_sealed_each",
         "MM.C04.C04_active_refuted_mitm",
         "MM.C04.C04_pinned_zero_key_downgrade",
         "MM.C04.C04_ingress_fixed_zero_key",
